@@ -31,6 +31,13 @@ def run_impl(pystog, case):
         _, _, e2 = tr.G_to_F(np.array(case["xin"], float), np.array(case["yin"], float), np.array(case["xout"], float), d, **kw)
         res["F_to_G_unc"] = np.asarray(e1, float).tolist()
         res["G_to_F_unc"] = np.asarray(e2, float).tolist()
+        if d is not None and len(case["xin"]) >= 3:
+            # a converting transform on abscissae of both signs (dF = Q dS is negative below zero; only its square matters)
+            sh = case["xin"][len(case["xin"]) // 2] + 0.0137
+            xs = np.array(case["xin"], float) - sh
+            _, _, e5 = tr.S_to_G(xs, np.array(case["yin"], float), np.array(case["xout"], float), d, **kw)
+            res["S_to_G_unc_shifted"] = np.asarray(e5, float).tolist()
+            res["shift"] = sh
     return res
 
 
@@ -78,6 +85,18 @@ def oracle(pystog, case, res):
                 return "uncertainty %r below exact uncorrelated propagation %r at x'=%r" % (float(v), sig, xp)
             if v > math.sqrt(2) * sig + 1e-9 * emag + 1e-300:
                 return "uncertainty %r above sqrt(2) x exact propagation %r at x'=%r" % (float(v), sig, xp)
+    if "S_to_G_unc_shifted" in res and not case["lorch"]:
+        xs = [v - res["shift"] for v in case["xin"]]
+        mm = len(xs)
+        Ws = [(xs[1] - xs[0]) / 2] + [(xs[j + 1] - xs[j - 1]) / 2 for j in range(1, mm - 1)] + [(xs[-1] - xs[-2]) / 2]
+        es = [abs(xs[j]) * case["dy"][j] for j in range(mm)]
+        smag = math.sqrt(sum((xs[j + 1] - xs[j]) ** 2 * (es[j + 1] ** 2 + es[j] ** 2) / 2 for j in range(mm - 1))) * 2 / math.pi
+        for xp, v5 in zip(case["xout"], res["S_to_G_unc_shifted"]):
+            sig = 2 / math.pi * math.sqrt(math.fsum((Ws[j] * es[j] * math.sin(xs[j] * xp)) ** 2 for j in range(mm)))
+            if v5 < sig - 1e-9 * smag - 1e-300:
+                return "S_to_G on abscissae of both signs: uncertainty %r below exact uncorrelated propagation %r at r=%r" % (float(v5), sig, xp)
+            if v5 > math.sqrt(2) * sig + 1e-9 * smag + 1e-300:
+                return "S_to_G on abscissae of both signs: uncertainty %r above sqrt(2) x exact propagation %r at r=%r" % (float(v5), sig, xp)
     if "F_to_G_unc" in res:
         if (np.abs(np.array(res["F_to_G_unc"]) - eo * 2 / math.pi) > 1e-9 * emag + 1e-300).any():
             return "F_to_G uncertainty is not 2/pi times the core uncertainty"
